@@ -209,6 +209,26 @@ def errclass(e: BaseException) -> str:
     return n
 
 
+class ImplRaised(Exception):
+    """the IMPLEMENTATION raised where the check expected a value: a mismatch, not an infrastructure failure"""
+
+    def __init__(self, cls, msg, where=""):
+        super().__init__(f"{cls}: {msg}")
+        self.cls, self.msg, self.where = cls, msg, where
+
+
+def impl(f, *a, **k):
+    """call into cooler; an exception there is attributed to the implementation (-> mismatch)"""
+    try:
+        return f(*a, **k)
+    except Infra:
+        raise
+    except Exception as e:  # noqa
+        tb = traceback.extract_tb(e.__traceback__)
+        where = f"{os.path.basename(tb[-1].filename)}:{tb[-1].lineno}" if tb else ""
+        raise ImplRaised(errclass(e), str(e)[:300], where) from None
+
+
 def guarded(f, *a, **k):
     """('ok', value) or ('err', class)"""
     try:
@@ -239,9 +259,25 @@ def _worker_run(item):
         res = _MOD.CHECKS[name](case)
     except Infra as e:
         return (name, case, {"infra": str(e)}, time.time() - t0)
+    except ImplRaised as e:
+        res = {"mismatch": True, "impl_raised": e.cls, "message": e.msg, "where": e.where,
+               "note": "the implementation raised where the model/spec yields a value"}
     except Exception:  # a crash of the harness itself is infrastructure, not a verdict
         return (name, case, {"infra": traceback.format_exc()[-3000:]}, time.time() - t0)
     return (name, case, res, time.time() - t0)
+
+
+def run_check(fn, case):
+    """run one check function; returns None (agrees) or the mismatch dict.  An exception raised by the
+    implementation (through `impl`) is a mismatch."""
+    try:
+        r = fn(case)
+    except ImplRaised as e:
+        return {"mismatch": True, "impl_raised": e.cls, "message": e.msg, "where": e.where,
+                "note": "the implementation raised where the model/spec yields a value"}
+    if isinstance(r, dict) and r.get("mismatch"):
+        return r
+    return None
 
 
 def canon(x):
@@ -379,9 +415,7 @@ def main_check(pid, tier, seed, replay=None):
     if replay:
         rp = json.load(open(replay))
         _worker_init(mod.__name__)
-        res = mod.CHECKS[rp["check"]](rp["case"])
-        if isinstance(res, dict) and "stats" in res and "mismatch" not in res:
-            res = None
+        res = run_check(mod.CHECKS[rp["check"]], rp["case"])
         print(json.dumps({"check": rp["check"], "case": rp["case"], "result": res}, indent=1, default=str))
         return 1 if res is not None else 0
 
@@ -420,9 +454,7 @@ def main_check(pid, tier, seed, replay=None):
             case, res = lst[0]
 
             def still(c, name=name):
-                r = mod.CHECKS[name](c)
-                if isinstance(r, dict) and "stats" in r and "mismatch" not in r:
-                    r = None
+                r = run_check(mod.CHECKS[name], c)
                 if r is None:
                     return False
                 if classify and findings and classify(name, c, r, findings):
@@ -430,7 +462,7 @@ def main_check(pid, tier, seed, replay=None):
                 return True
             small = shrink_case(mod, name, case, still)
             if small is not case:
-                res = mod.CHECKS[name](small)
+                res = run_check(mod.CHECKS[name], small)
             kind = getattr(mod, "LEVELS", {}).get(name, "top")
             suffix = ""
             esc = None
